@@ -93,6 +93,11 @@ PROPS["C06"] = dict(level="proof", gens=["go2ir"],
                     explanation="every exported operation is compared with the SAME Lean model in all four build configurations (so the configurations agree with each other); "
                                 "the limb-level obligations hold for both limb backends against the same specifications (same right-hand sides), the assembly entry points are "
                                 "compared with the IR programs of the generic source through the abstraction function (T0 @-entries)")
+C20_THMS = """Voi.Props.C20.base_table_u64 Voi.Props.C20.base_table_u32 Voi.Props.C20.ristretto_base_table Voi.Props.C20.odd_multiples_of_B_u64 Voi.Props.C20.odd_multiples_of_B_u32 Voi.Props.C20.odd_multiples_of_B_shl_128_u64 Voi.Props.C20.odd_multiples_of_B_shl_128_u32 Voi.Props.C20.Base0.rows Voi.Props.C20.Base1.rows Voi.Props.C20.Base2.rows Voi.Props.C20.Base3.rows Voi.Props.C20.Base4.rows Voi.Props.C20.Base5.rows Voi.Props.C20.Base6.rows Voi.Props.C20.Base7.rows Voi.Props.C20.Field.edwards_d Voi.Props.C20.Field.edwards_d2 Voi.Props.C20.Field.minus_one Voi.Props.C20.Field.sqrt_ad_minus_one Voi.Props.C20.Field.invsqrt_a_minus_d Voi.Props.C20.Field.one_minus_d_sq Voi.Props.C20.Field.d_minus_one_sq Voi.Props.C20.Field.sqrt_m1 Voi.Props.C20.Field.field_minus_one Voi.Props.C20.Field.field_one Voi.Props.C20.Field.field_two Voi.Props.C20.Field.aplus2_over_four Voi.Props.C20.Field.elligator_zero Voi.Props.C20.Field.montgomery_a Voi.Props.C20.Field.montgomery_neg_a Voi.Props.C20.Field.montgomery_a_squared Voi.Props.C20.Field.montgomery_sqrt_neg_a_plus_two Voi.Props.C20.Field.montgomery_u_factor Voi.Props.C20.Field.montgomery_v_factor Voi.Props.C20.Field.field_enc_agree Voi.Props.C20.OddB.entries Voi.Props.C20.OddB.shl128_entries_as_multiples_of_P Voi.Props.C20.OddBShl0.entries Voi.Props.C20.OddBShl1.entries Voi.Props.C20.Points.specB Voi.Props.C20.Points.specB_order Voi.Props.C20.Points.B_eq Voi.Props.C20.Points.B128_eq Voi.Props.C20.Points.basepoint_u64 Voi.Props.C20.Points.basepoint_u32 Voi.Props.C20.Points.ristretto_basepoint_u64 Voi.Props.C20.Points.ristretto_basepoint_u32 Voi.Props.C20.Points.b_shl_128_u64 Voi.Props.C20.Points.b_shl_128_u32 Voi.Props.C20.Points.b_shl_128_toPt_u64 Voi.Props.C20.Points.b_shl_128_toPt_u32 Voi.Props.C20.Points.b_shl_128_Z_ne_one Voi.Props.C20.Points.T1_order_eight Voi.Props.C20.Points.eight_torsion_u64 Voi.Props.C20.Points.eight_torsion_u32 Voi.Props.C20.Points.spec_torsion Voi.Props.C20.Points.eight_torsion_distinct Voi.Props.C20.Points.eight_torsion_alias_u64 Voi.Props.C20.Points.eight_torsion_alias_u32 Voi.Props.C20.Points.ed25519_basepoint_compressed Voi.Props.C20.Points.ristretto_basepoint_compressed Voi.Props.C20.Points.x25519_basepoint Voi.Props.C20.Points.noncanonical_sign_bits Voi.Props.C20.Points.bytes_enc_agree Voi.Props.C20.Points.packed_sizes Voi.Props.C20.Points.points_enc_agree Voi.Props.C20.Scalar.spec_L Voi.Props.C20.Scalar.basepoint_order Voi.Props.C20.Scalar.order_words Voi.Props.C20.Scalar.const_L Voi.Props.C20.Scalar.const_R Voi.Props.C20.Scalar.const_RR Voi.Props.C20.Scalar.montgomery_radix Voi.Props.C20.Scalar.scalar_enc_agree Voi.Props.C20.Scalar.ell_lower_half Voi.Props.C20.Scalar.i128_zero_one Voi.Props.C20.Scalar.i512_one Voi.Props.C20.TablesAgree.shape_u64 Voi.Props.C20.TablesAgree.shape_u32 Voi.Props.C20.TablesAgree.aliases Voi.Props.C20.TablesAgree.tables_enc_agree""".split()
+PROPS["C20"] = dict(level="proof", gens=["consts"], streams=[("K0", 2200)], configs_quick=T4, configs_thorough=T4, thorough_mult=1,
+                    theorems={"Voi.Props.C20": C20_THMS},
+                    explanation="every package-level constant and table entry (both limb encodings), dumped by interpreting the real initialisers, equals its defining value: kernel-evaluated; "
+                                "the run-time tables (incl. the AVX2 tables built in init) are compared exhaustively by stream K0 in four configurations")
 NOT_YET = {}
 
 
